@@ -78,11 +78,15 @@ class Side:
         class App(BaseComponent):
             channel = 'app'
 
-            @handler('ping', 'echo', 'boom')
+            @handler('ping', 'echo', 'boom', 'zero', 'blank')
             def _on(self, event, *args, **kwargs):
                 side.ran.append((event.name, list(args), dict(kwargs)))
                 if event.name == 'boom':
                     raise RuntimeError('boom')
+                if event.name == 'zero':
+                    return 0
+                if event.name == 'blank':
+                    return ''
                 return {'name': event.name, 'args': list(args), 'kwargs': kwargs}
 
         Glue().register(self.root)
@@ -133,8 +137,8 @@ def make_transport_harness(n_events, max_cuts):
         n = g.pick('n_events', list(range(1, n_events + 1)))
         evs, gens, results = [], [], {}
         for i in range(n):
-            name = g.pick('name%d' % i, ['ping', 'echo', 'boom'])
-            args, kwargs = g.pick('args%d' % i, ARGSETS)
+            name = g.pick('name%d' % i, ['ping', 'echo', 'boom', 'zero', 'blank'])
+            args, kwargs = g.pick('args%d' % i, ARGSETS) if name == 'ping' else ((), {})
             e = Event.create(name, *args, **kwargs)
             e.channels = ('app',)
             evs.append((name, args, kwargs, e))
@@ -203,7 +207,11 @@ def make_transport_harness(n_events, max_cuts):
             val = v.value if hasattr(v, 'value') else v
             if runs and name != 'boom':
                 exp = {'name': name, 'args': json.loads(json.dumps(list(args))), 'kwargs': json.loads(json.dumps(kwargs))}
-                if val != exp:
+                if name == 'zero':
+                    exp = 0
+                elif name == 'blank':
+                    exp = ''
+                if val != exp or type(val) is not type(exp):
                     g.fail('wrong-result', dict(w, event=name), 'event %d got %r expected %r; %s' % (i, str(val)[:200], str(exp)[:200], detail))
             if runs and name == 'boom':
                 if not getattr(e, 'errors', False) and not getattr(v, 'errors', False):
